@@ -77,7 +77,7 @@ func parseRecipientsFile(name string) ([]age.Recipient, error) {
 		}
 		r, err := parseRecipient(line)
 		if err != nil {
-			if t, ok := sshKeyType(line); ok {
+			if t, ok := sshKeyType(line); ok && validSSHKey(line) {
 				// Skip unsupported but valid SSH public keys with a warning.
 				warningf("recipients file %q: ignoring unsupported SSH key of type %q at line %d", name, t, n)
 				continue
@@ -95,6 +95,13 @@ func parseRecipientsFile(name string) ([]age.Recipient, error) {
 		return nil, fmt.Errorf("%q: no recipients found", name)
 	}
 	return recs, nil
+}
+
+// validSSHKey reports whether s is a well-formed SSH public key line, of a
+// type supported by age or not. Malformed keys must not be skipped silently.
+func validSSHKey(s string) bool {
+	_, _, _, _, err := ssh.ParseAuthorizedKey([]byte(s))
+	return err == nil
 }
 
 func sshKeyType(s string) (string, bool) {
